@@ -43,6 +43,9 @@ M_ACTIONS = [
     ("states-never-read", [("states",)], None),  # M asks and never reads the answer: the server's drain() for M does not return
     ("well-formed-enq", [("enq", 3)], dict(deps=[], codes=(0,))),
     ("enq-states-one-write", [("enq+states", 3)], dict(deps=[], codes=(0,))),
+    # M's own task waits for H's first task and M cancels it again: H's task is none of M's business
+    ("enq-on-others-then-cancel", [("enq", 3), ("cancel", 3)], dict(deps=[0], codes=(0,))),
+    ("state-others-task", [("state1", 0)], None),
 ]
 
 
@@ -68,7 +71,8 @@ def scenario(mseq, cores=2):
     clients = [
         # two polls for short M sequences: a state change that is not announced between them (stale answers) becomes visible
         dict(name="H", ops=[("enq", 0), ("enq", 1), ("states",)] + ([("states",)] if len(mseq) == 1 and mseq[0].startswith("enq-") else []), healthy=True),
-        dict(name="M", ops=mops, fail_drain=fail_drain, block_drain=block_drain),
+        # (M's task that waits for H's first task: M speaks once H has said everything, so that the id it names exists)
+        dict(name="M", ops=mops, fail_drain=fail_drain, block_drain=block_drain, **(dict(after="H") if "enq-on-others-then-cancel" in mseq else {})),
         dict(name="N", ops=[("enq", 2), ("states",)], healthy=True, after="M"),
     ]
     return dict(cores=cores, tasks=tasks, ops=[], clients=clients, via="multi", mseq=list(mseq), **(dict(start_fail=start_fail) if start_fail else {}))
@@ -103,7 +107,7 @@ def run(ctx):
     if quick:
         # length-2 sequences: every pair whose first action can kill or wedge M's handler, followed by every action
         firsts = ("garbage", "cancel-unknown-id", "enq-extra-field", "half-line-eof", "states-drain-fails")
-        scs += [s for s in (scenario((a, b[0])) for a in firsts for b in M_ACTIONS) if s is not None]
+        scs += [s for s in (scenario((a, b[0])) for a in firsts for b in M_ACTIONS if b[0] not in ("enq-on-others-then-cancel", "state-others-task")) if s is not None]
     short = [s for s in scs if len(s["mseq"]) <= 1]
     longer = [s for s in scs if len(s["mseq"]) > 1]
     ctx.pmap(me, "pool_batch", short, chunk=1, prop=ID, bound=1 if quick else 2)
@@ -116,7 +120,7 @@ def run(ctx):
     ctx.pmap(me, "socket_batch", seqs, chunk=max(4, len(seqs) // 16))
     ctx.traces_validated = ctx.acc.extra["traces_validated"]
     ctx.notes.setdefault("coverage_extra", {})["real_socket_sequences"] = len(seqs)
-    ctx.rule = "scenario = sequence of M actions (27-action alphabet) next to fixed H and N scripts; all interleavings of client operations and process exits; non-trivial = distinct scenario"
+    ctx.rule = "scenario = sequence of M actions (29-action alphabet) next to fixed H and N scripts; all interleavings of client operations and process exits; non-trivial = distinct scenario"
     ctx.bound = dict(scenarios=len(scs), m_actions=len(M_ACTIONS), m_len=1 if quick else 2, deviations="1 for |M|<=1, 0 for |M|=2" if quick else "2 for |M|<=1, 1 for |M|=2", cores=2)
     ctx.assumptions = ["connections are asyncio.StreamReader objects fed by the explorer + recording writers (real sockets: real-socket tier)", "shutdown is an administrative request, not misbehaviour"]
 
